@@ -37,6 +37,7 @@ func c04Leaves(full bool) []*qt.Node {
 			qt.Range("n", qt.Int(1), qt.Float("2.5"), true), qt.Range("s", qt.Word("aa"), qt.Word("zz"), true), qt.Range("s", qt.Phrase("x,y"), qt.Phrase("z z"), false),
 			qt.Range("s", qt.Open(), qt.Word("mm"), true), qt.Range("n", qt.Open(), qt.Open(), true),
 			qt.List("n", qt.Int(1), qt.Float("2.5"), qt.Phrase("z z")), qt.List("s", qt.Phrase("a,b"), qt.Phrase("it's")),
+			qt.List("s", qt.Word("p"), qt.Word("q"), qt.Int(3), qt.Phrase("r s")), qt.List("n", qt.Int(1), qt.Int(2), qt.Int(3), qt.Float("4.5"), qt.Int(5)),
 			qt.FV(qt.Int(5), qt.Wild("c*")), qt.FV(qt.Float("1.5"), qt.Wild("c?d")), qt.FV(qt.Int(-7), qt.Word("x")), qt.FV(qt.Int(5), qt.Regexp("/c*/")),
 			qt.F("f", qt.Regexp(`/C:\\/`)), qt.List("s", qt.Word("x"), qt.Word("x"), qt.Word("y")), qt.Range("n", qt.Int(5), qt.Int(5), true),
 			&qt.Node{Kind: qt.KCmp, Field: qt.Int(3), Cmp: ">", Val: qt.Int(2)}, &qt.Node{Kind: qt.KRange, Field: qt.Int(9), Lo: qt.Int(1), Hi: qt.Int(5), Incl: true},
